@@ -19,8 +19,10 @@ import (
 
 // hangTimeout is how long one execution of one script may take before the
 // worker declares a hang.  The slowest legitimate run (a C15 run with several
-// hundred faulted HTML renders) takes about two seconds.
-const hangTimeout = 40 * time.Second
+// hundred faulted HTML renders) takes a few seconds on an idle machine; the
+// limit is two orders of magnitude above that so that a loaded machine can
+// never turn a slow run into a reported hang.
+const hangTimeout = 5 * time.Minute
 
 // timedEngine wraps an engine so that every Exec is visible to the watchdog.
 type timedEngine struct {
